@@ -60,6 +60,8 @@ def _slice_bounds(func):
             if n.slice.step is not None:
                 raise TableError('unexpected step in classifications slice at line %d' % n.lineno)
             lo = None if n.slice.lower is None else lit(n.slice.lower)
+            if lo == 0 and not isinstance(lo, bool):
+                lo = None           # classifications[0:2] is classifications[:2]
             hi = None if n.slice.upper is None else lit(n.slice.upper)
             out.append((n.lineno, n.col_offset, lo, hi))
     out.sort()
